@@ -13,6 +13,7 @@ from pyshacl.errors import ConstraintLoadError, ReportableRuntimeError
 from pyshacl.helper.path_helper import shacl_path_to_sparql_path
 from pyshacl.pytypes import GraphLike, SHACLExecutor
 from pyshacl.rdfutil import stringify_node
+from pyshacl.rdfutil.compare import compare_literal
 from pyshacl.shape import Shape
 
 SH_equals = SH.equals
@@ -24,6 +25,26 @@ SH_EqualsConstraintComponent = SH.EqualsConstraintComponent
 SH_DisjointConstraintComponent = SH.DisjointConstraintComponent
 SH_LessThanConstraintComponent = SH.LessThanConstraintComponent
 SH_LessThanOrEqualsConstraintComponent = SH.LessThanOrEqualsConstraintComponent
+
+
+def _in_sparql_order(value_node, compare_value, allow_equal: bool) -> bool:
+    """
+    value_node < compare_value (or <= when allow_equal) in the sense of the SPARQL operators.
+    False when the two terms cannot be compared (blank nodes, an IRI against a literal, literals of
+    incomparable datatypes, ill-typed literals). SPARQL does not order IRIs; two IRIs keep being
+    ordered by their string.
+    """
+    if isinstance(value_node, rdflib.Literal) and isinstance(compare_value, rdflib.Literal):
+        try:
+            cmp = compare_literal(value_node, compare_value)
+        except (TypeError, NotImplementedError):
+            return False
+        return cmp < 0 or (allow_equal and cmp == 0)
+    if isinstance(value_node, rdflib.URIRef) and isinstance(compare_value, rdflib.URIRef):
+        s1 = str(value_node)
+        s2 = str(compare_value)
+        return s1 < s2 or (allow_equal and s1 == s2)
+    return False
 
 
 class EqualsConstraintComponent(ConstraintComponent):
@@ -348,34 +369,12 @@ class LessThanConstraintComponent(ConstraintComponent):
         non_conformant = False
         reports = []
         for value_node in iter(value_node_set):
-            if isinstance(value_node, rdflib.BNode):
-                raise ReportableRuntimeError("Cannot use sh:lessThan to compare a BlankNode.")
-            value_is_string = False
-            orig_value_node = value_node
-            if isinstance(value_node, rdflib.URIRef):
-                value_node = str(value_node)
-                value_is_string = True
-            elif isinstance(value_node, rdflib.Literal) and isinstance(value_node.value, str):
-                value_node = value_node.value
-                value_is_string = True
-
             for compare_value in compare_values:
-                if isinstance(compare_value, rdflib.BNode):
-                    raise ReportableRuntimeError("Cannot use sh:lessThan to compare a BlankNode.")
-                compare_is_string = False
-                if isinstance(compare_value, rdflib.URIRef):
-                    compare_value = str(compare_value)
-                    compare_is_string = True
-                elif isinstance(compare_value, rdflib.Literal) and isinstance(compare_value.value, str):
-                    compare_value = compare_value.value
-                    compare_is_string = True
-                if (value_is_string and not compare_is_string) or (compare_is_string and not value_is_string):
-                    non_conformant = True
-                elif not value_node < compare_value:
-                    non_conformant = True
-                else:
+                if _in_sparql_order(value_node, compare_value, allow_equal=False):
                     continue
-                rept = self.make_v_result(datagraph, f, value_node=orig_value_node)
+                # not in order, or the two values cannot be compared
+                non_conformant = True
+                rept = self.make_v_result(datagraph, f, value_node=value_node)
                 reports.append(rept)
         return non_conformant, reports
 
@@ -499,34 +498,12 @@ class LessThanOrEqualsConstraintComponent(ConstraintComponent):
         non_conformant = False
         reports = []
         for value_node in iter(value_node_set):
-            if isinstance(value_node, rdflib.BNode):
-                raise ReportableRuntimeError("Cannot use sh:lessThanOrEquals to compare a BlankNode.")
-            value_is_string = False
-            orig_value_node = value_node
-            if isinstance(value_node, rdflib.URIRef):
-                value_node = str(value_node)
-                value_is_string = True
-            elif isinstance(value_node, rdflib.Literal) and isinstance(value_node.value, str):
-                value_node = value_node.value
-                value_is_string = True
-
             for compare_value in compare_values:
-                if isinstance(compare_value, rdflib.BNode):
-                    raise ReportableRuntimeError("Cannot use sh:lessThanOrEquals to compare a BlankNode.")
-                compare_is_string = False
-                if isinstance(compare_value, rdflib.URIRef):
-                    compare_value = str(compare_value)
-                    compare_is_string = True
-                elif isinstance(compare_value, rdflib.Literal) and isinstance(compare_value.value, str):
-                    compare_value = compare_value.value
-                    compare_is_string = True
-                if (value_is_string and not compare_is_string) or (compare_is_string and not value_is_string):
-                    non_conformant = True
-                elif not value_node <= compare_value:
-                    non_conformant = True
-                else:
+                if _in_sparql_order(value_node, compare_value, allow_equal=True):
                     continue
-                rept = self.make_v_result(datagraph, f, value_node=orig_value_node)
+                # not in order, or the two values cannot be compared
+                non_conformant = True
+                rept = self.make_v_result(datagraph, f, value_node=value_node)
                 reports.append(rept)
         return non_conformant, reports
 
